@@ -81,7 +81,7 @@ def run_case(case):
     dt = np.dtype(case["dt"])
     sig = "|".join(map(str, ["esp", nd, case["kind"], "nc%d" % min(nc, 4),
                              "cw%d" % min(case["cw"] // 4, 3), "kw%d" % case["kw"],
-                             case["thresh"], case["crop"], dt.name]))
+                             case["thresh"], case["crop"], dt.name, "lay%d" % (case["eseed"] % 4)]))
     wit = dict(case)
     true = None
     if case["kind"] == "random":
@@ -98,11 +98,24 @@ def run_case(case):
         true = mr.birdcage_maps([nc] + shape)
         img = (1.0 + 0.5 * rng.random(shape)) * np.exp(1j * rng.random(shape))
         ksp = sp.fft(true * img, axes=list(range(-nd, 0))).astype(dt)
+    lay = case["eseed"] % 4
+    if lay == 1:
+        ksp = np.asfortranarray(ksp)                     # memory-layout variants
+    elif lay == 2:
+        ksp = np.ascontiguousarray(np.swapaxes(ksp, 1, 2)).swapaxes(1, 2)
     ksp0 = ksp.copy()
     try:
-        mps, eig = mr.app.EspiritCalib(ksp, calib_width=case["cw"], thresh=case["thresh"],
-                                       kernel_width=case["kw"], crop=case["crop"],
-                                       output_eigenvalue=True, show_pbar=False).run()
+        app = mr.app.EspiritCalib(ksp, calib_width=case["cw"], thresh=case["thresh"],
+                                  kernel_width=case["kw"], crop=case["crop"],
+                                  output_eigenvalue=True, show_pbar=False)
+        if case["eseed"] % 3 == 0:
+            # history: a second calibration of the same shape and dtype is constructed before
+            # the first one is run (e.g. slice-by-slice processing builds all apps first)
+            other = mr.app.EspiritCalib(crandn(rng, list(ksp.shape), dt),
+                                        calib_width=case["cw"], thresh=case["thresh"],
+                                        kernel_width=case["kw"], crop=case["crop"],
+                                        output_eigenvalue=True, show_pbar=False)
+        mps, eig = app.run()
     except Exception as e:
         inn = e
         while inn.__cause__ is not None:
